@@ -11,6 +11,16 @@ Equiv(fam, x, y) == IF fam = "mod2" THEN x % 2 = y % 2 ELSE x = y
 KeyOfV(fam, v) == CASE fam = "mod2" -> v % 2 [] fam = "id" -> v [] OTHER -> 0
 Conv(fam, v) == IF fam = "neg" THEN 0 - v ELSE v * 10
 Acc(fam, st, v) == IF fam = "rec" THEN Append(st, v) ELSE <<10 * st[1] + v>>   \* "dec": state kept as a 1-tuple
+\* Stateful callback families ("for every input" includes callbacks that count how often they are asked): under the straightforward
+\* definitions the i-th element is the subject of the i-th call, so these are functions of the POSITION
+IsPos(fam) == fam \in {"oddcall", "first2"}
+PosPred(fam, i) == IF fam = "oddcall" THEN i % 2 = 1 ELSE i <= 2
+RECURSIVE SelPos(_, _, _)
+SelPos(s, fam, i) == IF i > Len(s) THEN <<>> ELSE (IF PosPred(fam, i) THEN <<s[i]>> ELSE <<>>) \o SelPos(s, fam, i + 1)
+FirstPos(s, fam) == IF \E i \in 1..Len(s) : PosPred(fam, i) THEN (CHOOSE i \in 1..Len(s) : PosPred(fam, i) /\ \A j \in 1..i - 1 : ~PosPred(fam, j)) - 1 ELSE -1
+RECURSIVE SelPar(_, _, _)
+SelPar(s, par, i) == IF i > Len(s) THEN <<>> ELSE (IF i % 2 = par THEN <<s[i]>> ELSE <<>>) \o SelPar(s, par, i + 1)
+GroupsPar(s) == IF Len(s) = 0 THEN <<>> ELSE IF Len(s) = 1 THEN << <<1, s>> >> ELSE << <<1, SelPar(s, 1, 1)>>, <<0, SelPar(s, 0, 1)>> >>
 Rev(s) == [i \in 1..Len(s) |-> s[Len(s) + 1 - i]]
 Elems(s) == {s[i] : i \in 1..Len(s)}
 \* Fold(s,seed,acc) = acc(...acc(acc(seed,s[0]),s[1])...,s[n-1])
@@ -41,22 +51,24 @@ Expect(e) ==
   LET s == e.s IN
   CASE e.op = "Fold" -> [R0 EXCEPT !.rs = FoldL(e.fam, e.aux, s)]
     [] e.op = "FoldReverse" -> [R0 EXCEPT !.rs = FoldR(e.fam, e.aux, s)]
-    [] e.op = "Map" -> [R0 EXCEPT !.rs = [i \in 1..Len(s) |-> Conv(e.fam, s[i])]]
+    [] e.op = "Map" -> [R0 EXCEPT !.rs = [i \in 1..Len(s) |-> IF e.fam = "callno" THEN 100 * i + s[i] ELSE Conv(e.fam, s[i])]]
     [] e.op = "MapErr" -> LET j == FirstIdx(s, e.fam, e.a) IN
                           IF j = -1 THEN [R0 EXCEPT !.rs = [i \in 1..Len(s) |-> Conv("x10", s[i])], !.ri = Len(s)]
                           ELSE [R0 EXCEPT !.rb = TRUE, !.ri = j + 1]        \* no result, the error, exactly j+1 calls
-    [] e.op = "Filter" -> [R0 EXCEPT !.rs = FilterP(s, e.fam, e.a)]
-    [] e.op = "Any" -> [R0 EXCEPT !.rb = \E i \in 1..Len(s) : Pred(e.fam, e.a, s[i])]
-    [] e.op = "All" -> [R0 EXCEPT !.rb = \A i \in 1..Len(s) : Pred(e.fam, e.a, s[i])]
+    [] e.op = "Filter" -> [R0 EXCEPT !.rs = IF IsPos(e.fam) THEN SelPos(s, e.fam, 1) ELSE FilterP(s, e.fam, e.a)]
+    [] e.op = "Any" -> [R0 EXCEPT !.rb = \E i \in 1..Len(s) : IF IsPos(e.fam) THEN PosPred(e.fam, i) ELSE Pred(e.fam, e.a, s[i])]
+    [] e.op = "All" -> [R0 EXCEPT !.rb = \A i \in 1..Len(s) : IF IsPos(e.fam) THEN PosPred(e.fam, i) ELSE Pred(e.fam, e.a, s[i])]
     [] e.op = "Index" -> [R0 EXCEPT !.ri = FirstIdx(s, "eq", e.a)]
-    [] e.op = "IndexFunc" -> [R0 EXCEPT !.ri = FirstIdx(s, e.fam, e.a)]
+    [] e.op = "IndexFunc" -> [R0 EXCEPT !.ri = IF IsPos(e.fam) THEN FirstPos(s, e.fam) ELSE FirstIdx(s, e.fam, e.a)]
     [] e.op = "Contains" -> [R0 EXCEPT !.rb = e.a \in Elems(s)]
     [] e.op = "ContainsFunc" -> [R0 EXCEPT !.rb = \E i \in 1..Len(s) : Equiv(e.fam, s[i], e.a)]
     [] e.op = "Distinct" -> [R0 EXCEPT !.rs = DistinctBy("eq", <<>>, s)]
     [] e.op = "DistinctFunc" -> [R0 EXCEPT !.rs = DistinctBy(e.fam, <<>>, s)]
     [] e.op \in {"Except", "ExceptSetM", "ExceptSetS"} -> [R0 EXCEPT !.rs = ExceptOf(s, e.aux)]
-    [] e.op = "GroupBy" -> [R0 EXCEPT !.rg = Groups(e.fam, s)]
-    [] e.op = "CountBy" -> [R0 EXCEPT !.rs = Counts(e.fam, s)]
+    [] e.op = "GroupBy" -> [R0 EXCEPT !.rg = IF e.fam = "callpar" THEN GroupsPar(s) ELSE Groups(e.fam, s)]
+    [] e.op = "CountBy" -> [R0 EXCEPT !.rs = IF e.fam = "callpar"
+                                             THEN LET g == GroupsPar(s) IN FlatPairs([i \in 1..Len(g) |-> <<g[i][1], Len(g[i][2])>>])
+                                             ELSE Counts(e.fam, s)]
     [] e.op = "Trim" -> LET U(v) == v \in Elems(e.aux) IN [R0 EXCEPT !.rs = DropL(DropR(s, U, 0), U, 0)]
     [] e.op = "TrimLeft" -> LET U(v) == v \in Elems(e.aux) IN [R0 EXCEPT !.rs = DropL(s, U, 0)]
     [] e.op = "TrimRight" -> LET U(v) == v \in Elems(e.aux) IN [R0 EXCEPT !.rs = DropR(s, U, 0)]
